@@ -2,7 +2,8 @@ package frame
 
 // (c') the deprecated message path of frame.Writer: a keyed writer emits the signed flag, the configured link id, the
 // clock in 10 us units and a signature per the formula, for any link id, ids and sequence state
-func verifHarness_C06_writemessage(shape int) {
+// unset 1: OutVersion left at its zero value, which has always meant version 2
+func verifHarness_C06_writemessage(shape int, unset int) {
 	defer verifPatchClock()()
 	keyb := verifNondetBytes(32)
 	key := new(V2Key)
@@ -11,6 +12,9 @@ func verifHarness_C06_writemessage(shape int) {
 	rec := &verifRecWriter{}
 	w := &Writer{ByteWriter: rec, DialectRW: verifDialectRW(), OutVersion: V2, OutSystemID: sys, OutComponentID: comp,
 		OutSignatureLinkID: link, OutKey: key}
+	if unset == 1 {
+		w.OutVersion = 0
+	}
 	verifAssert(w.Initialize() == nil, "C06/c/init")
 	w.nextSeqNumber = s
 	msg, full, spec := VerifMsg(shape, 2)
